@@ -445,7 +445,17 @@ def differential(ctx, component, cases, to_model, run_impl, key=None, hist=None,
     """Run impl and extracted model on the same cases; return the mismatches
     [(case, impl_out, model_out)].  Counting/sampling goes to the evidence."""
     lines = [to_model(c) for c in cases]
-    impl = [run_impl(c) for c in cases]
+
+    def guarded_impl(c):
+        # an exception escaping the code under test is an outcome (compared with the model and
+        # judged by the caller's oracle), never a crash of the check
+        try:
+            return run_impl(c)
+        except BuildBroken:
+            raise
+        except Exception as e:      # noqa
+            return f'EXC:{type(e).__name__}'
+    impl = [guarded_impl(c) for c in cases]
     try:
         model = run_model(component, lines)
     except BuildBroken as b:
